@@ -62,8 +62,13 @@ BuildVerdict(e) ==
   ELSE IF b[2] # Len(b) - 2 THEN "build-length-byte"
   ELSE IF e.g1_again # e.g1 \/ e.bytes_again # b THEN "build-encoding-changed-the-object"
   ELSE IF IntendedNotReflected(e) # "" THEN "build-setter-not-reflected-" \o IntendedNotReflected(e)
-  ELSE LET p == Parse(b) IN
+  ELSE LET p == Parse(b)
+           lg == LastArg(e.calls, "Grouping", Len(e.calls))
+           \* the ids the builder gave last (the Comcast flavour carries one id; a raised flag without ids gets the id 5 from the harness)
+           want == IF lg = <<>> \/ Len(lg[1].ids) = 0 THEN <<5>> ELSE IF e.cablelabs THEN lg[1].ids ELSE <<lg[1].ids[1]>>
+       IN
   IF ~p.ok THEN "build-not-wellformed"
+  ELSE IF p.grouping /\ p.groups # want THEN "build-grouping-ids-are-not-the-ones-given"
   ELSE IF e.err2 THEN "build-own-encoding-rejected"
   ELSE IF GettersVs(e.g2, p) # "" THEN "build-decode-" \o GettersVs(e.g2, p)
   ELSE IF e.g1.frag # e.g2.frag \/ e.g1.seg # e.g2.seg \/ e.g1.sapflag # e.g2.sapflag \/ e.g1.grouping # e.g2.grouping
